@@ -44,7 +44,11 @@ impl Check for C14 {
             let mut net = crate::tierb::calm_net(&mut g);
             net["pipe"] = json!({"capacity": 1u64 << 40, "rcut_ppm": 0, "wcut_ppm": 0, "one_byte_ppm": 0, "pend_ppm": 0, "lat": [0, 0]});
             return json!({"net": net, "tier": "B", "interval_s": interval, "timeout_s": tout, // the round trip also has to fit the 30 s the client waits for the answer to its open
-                "delay_us": std::cmp::min(10_000_000, std::cmp::max(1_000, delay_us)), "traffic": g.chance(40)});
+                "delay_us": std::cmp::min(10_000_000, std::cmp::max(1_000, delay_us)), "traffic": g.chance(40),
+                // further requests after the first one (the second reuses its session): served, refused by the target,
+                // for a name that does not resolve, or for a name too long to encode (fails locally, after its stream was
+                // opened) - none of them makes the server any less alive
+                "later": (0..*g.pick(&[0u64, 0, 1, 1, 2])).map(|_| *g.pick(&["ok", "refused", "unresolvable", "overlong", "overlong"])).collect::<Vec<_>>()});
         }
         let mut net = gen_net(&mut g, false, true);
         net["pipe"] = json!({"capacity": 1 << 20, "rcut_ppm": *g.pick(&[0u64, 300_000]), "wcut_ppm": 0, "one_byte_ppm": 0, "pend_ppm": 0, "lat": [0, 0]});
@@ -306,7 +310,7 @@ impl Check for C14 {
         out
     }
     fn rule(&self) -> &'static str {
-        "one case = a real client Session with heartbeat (interval, timeout) from the grid {1,2,3,5,10,30,60}s x {1,2,3,5,10,30,60}s (every pair visited in turn by the run index, including timeout < interval and equal), a seeded one-way delay in [1 ms, 0.45 x timeout], a peer that answers every keep-alive request until it falls silent (never / from the start / after k answers; draining or stalled with a 256-byte pipe), with and without stream traffic in either direction, with a blocked reader and a pending open as waiters; observed for 25 intervals of virtual time; non-trivial = at least two answered requests (healthy case) or a silence that was reached; distinct = distinct (plan hash, poll-order fingerprint)"
+        "(1 case in 6 goes through the real Client against the real Server over a delayed link; there 0-2 further requests follow the first one - served, refused by the target, for an unresolvable name, or failing locally after their stream was opened - and every session must stay open) one case = a real client Session with heartbeat (interval, timeout) from the grid {1,2,3,5,10,30,60}s x {1,2,3,5,10,30,60}s (every pair visited in turn by the run index, including timeout < interval and equal), a seeded one-way delay in [1 ms, 0.45 x timeout], a peer that answers every keep-alive request until it falls silent (never / from the start / after k answers; draining or stalled with a 256-byte pipe), with and without stream traffic in either direction, with a blocked reader and a pending open as waiters; observed for 25 intervals of virtual time; non-trivial = at least two answered requests (healthy case) or a silence that was reached; distinct = distinct (plan hash, poll-order fingerprint)"
     }
     fn real_components(&self) -> Vec<&'static str> {
         vec!["Session (client): heartbeat task, recv_loop (HeartResponse handling), write paths, close", "Stream / StreamReader (waiters)"]
@@ -348,6 +352,29 @@ async fn run_through_client(plan: &Value) -> Outcome {
             return out;
         }
     };
+    let mut kept = Vec::new();
+    for (i, k) in plan["later"].as_array().into_iter().flatten().enumerate() {
+        let k = k.as_str().unwrap_or("ok");
+        let dest = match k {
+            "refused" => {
+                set_policy("198.51.100.15:81".parse().unwrap(), anytls_simnet::net::ConnectPolicy::Refuse { delay_us: 0 });
+                ("198.51.100.15".to_string(), 81)
+            }
+            "unresolvable" => ("nx.test".to_string(), 80),
+            "overlong" => (format!("{}.test", "o".repeat(260 + i)), 80),
+            _ => ("198.51.100.16".to_string(), 80 + i as u16),
+        };
+        let r = timeout(Duration::from_secs(600), client.create_proxy_stream(dest)).await;
+        anytls_simnet::world::probe(match k { "overlong" => "c14.request_failed_locally_on_live_session", "ok" => "c14.later_request_served", _ => "c14.later_request_refused_by_server" });
+        match (k, r) {
+            ("ok", Ok(Ok(x))) => kept.push(x),
+            ("ok", other) => {
+                out.viol("harness", "setup-later", format!("later request failed: {:?}", other.map(|r| r.map(|_| ()).map_err(|e| e.to_string()))));
+                return out;
+            }
+            _ => {}
+        }
+    }
     let t_ready = now_us();
     if plan["traffic"].as_bool().unwrap_or(false) {
         let (se2, sid) = (se.clone(), st.id());
@@ -363,7 +390,7 @@ async fn run_through_client(plan: &Value) -> Outcome {
     let horizon = t_ready + 14 * std::cmp::max(interval, 1) * 1_000_000 + 4 * d;
     let step = std::cmp::max(5_000, interval * 25_000);
     while now_us() < horizon {
-        if se.is_closed() {
+        if se.is_closed() || kept.iter().any(|(_, s)| s.is_closed()) {
             let rel = if tout < interval { "timeout<interval" } else if tout == interval { "timeout=interval" } else { "timeout>interval" };
             out.viol("healthy-closed", format!("healthy-closed:through-client:{}", rel), format!("pool settings check interval {} s / idle timeout {} s, one-way delay {} us to a healthy server: the session was closed {} ms after it was established", interval, tout, d, (now_us() - t_ready) / 1000));
             break;
@@ -371,7 +398,8 @@ async fn run_through_client(plan: &Value) -> Outcome {
         sleep(Duration::from_micros(step)).await;
     }
     out.nontrivial = true;
-    out.summary = json!({"tier": "B", "interval_s": interval, "timeout_s": tout, "delay_us": d, "closed": se.is_closed()});
+    out.summary = json!({"tier": "B", "interval_s": interval, "timeout_s": tout, "delay_us": d, "closed": se.is_closed(), "later": plan["later"]});
     drop(st);
+    drop(kept);
     out
 }
